@@ -32,14 +32,16 @@ theorem runOps_returned_cond (env : Env) (sidx : Nat) (cur : List POp) :
         · simp at h
         · exact ih _ _ _ _ _ h
 
-/-- a parsed script started with an empty conditional stack: no panic, and whatever state it hands to the next
-    script has an empty conditional stack again -/
+/-- the state a script starts in: empty conditional stack, no separator recorded -/
+def Fresh (s : St) : Prop := s.cond = [] ∧ s.lastCodeSep = 0 ∧ s.sepSeen = false
+
+/-- a parsed script started fresh: no panic, and whatever state it hands to the next script is fresh again -/
 theorem runScript_spec (env : Env) (sidx : Nat) (ops : List POp) (s : St) (tr : List Snap)
-    (hp : Parsed env.ctx.isNone 0 ops) (hc : s.cond = []) :
+    (hp : Parsed env.ctx.isNone 0 ops) (hf : Fresh s) :
     (∀ p tr', runScript env sidx ops s tr ≠ (.stop (.panic p), tr')) ∧
-    (∀ s' tr', runScript env sidx ops s tr = (.normal s', tr') → s'.cond = []) ∧
-    (∀ s' tr', runScript env sidx ops s tr = (.byReturn s', tr') → s'.cond = []) := by
-  have hnp := runOps_noPanic env sidx ops ops 0 s tr 0 hp (by simp [hc])
+    (∀ s' tr', runScript env sidx ops s tr = (.normal s', tr') → Fresh s') ∧
+    (∀ s' tr', runScript env sidx ops s tr = (.byReturn s', tr') → Fresh s') := by
+  have hnp := runOps_noPanic env sidx ops ops 0 s tr 0 hp (by simp [hf.1]) (by simp) (Or.inr ⟨hf.2.1, hf.2.2⟩)
   unfold runScript
   cases hr : runOps env sidx ops ops 0 s tr with
   | mk e tr1 =>
@@ -51,7 +53,7 @@ theorem runScript_spec (env : Env) (sidx : Nat) (ops : List POp) (s : St) (tr : 
       refine ⟨by simp, by simp, ?_⟩
       intro s' tr' h
       simp only [Prod.mk.injEq, Ended.byReturn.injEq] at h
-      rw [← h.1]; exact this
+      rw [← h.1]; exact ⟨this, rfl, rfl⟩
     | finished s1 =>
       simp only
       split
@@ -62,7 +64,7 @@ theorem runScript_spec (env : Env) (sidx : Nat) (ops : List POp) (s : St) (tr : 
         simp only [Prod.mk.injEq, Ended.normal.injEq] at h
         rw [← h.1]
         simp only [Bool.not_eq_true', Bool.not_eq_false] at hne
-        simpa using hne
+        exact ⟨by simpa using hne, rfl, rfl⟩
 
 theorem finalCheck_noPanic (env : Env) (s : St) (tr : List Snap) (p : String) : (finalCheck env s tr).1 ≠ .panic p := by
   unfold finalCheck; split <;> simp
@@ -125,7 +127,7 @@ theorem p2sh_lock_needs_item (env : Env) (tail : List POp) (s : St) (tr : List S
   | panic q => rw [he] at h; simp at h
 
 theorem runP2SH_noPanic (env : Env) (lensUL : List Nat) (saved : List Bytes) (s2 : St) (tr : List Snap)
-    (hs : saved ≠ []) (hc : s2.cond = []) (p : String) :
+    (hs : saved ≠ []) (hc : Fresh s2) (p : String) :
     (runP2SH env env.ctx.isNone lensUL saved s2 tr).1 ≠ .panic p := by
   unfold runP2SH
   split
@@ -188,7 +190,7 @@ theorem prepare_spec (H : Crypto) (flags : Nat) (ctx : Option Ctx) (unlock lock 
           exact p2sh_parse lock _ lops hb.2 hlk
 
 theorem runLock_noPanic (env : Env) (p : Prepared) (saved : List Bytes) (s1 : St) (tr : List Snap)
-    (hpl : Parsed env.ctx.isNone 0 p.lock) (hc : s1.cond = []) (hsaved : saved = s1.ds)
+    (hpl : Parsed env.ctx.isNone 0 p.lock) (hc : Fresh s1) (hsaved : saved = s1.ds)
     (hb : p.bip16 = true → ∃ tail, p.lock = ⟨0xa9, [], 1⟩ :: tail) (q : String) :
     (runLock env p env.ctx.isNone saved s1 tr).1 ≠ .panic q := by
   unfold runLock
@@ -209,7 +211,7 @@ theorem runLock_noPanic (env : Env) (p : Prepared) (saved : List Bytes) (s1 : St
       apply runP2SH_noPanic env _ saved s2 tr2 _ (spec.2.1 s2 tr2 hrun)
       intro hs
       rw [htail] at hrun
-      exact p2sh_lock_needs_item env tail s1 tr s2 tr2 hcond.2 hc (by rw [← hsaved, hs]) hrun
+      exact p2sh_lock_needs_item env tail s1 tr s2 tr2 hcond.2 hc.1 (by rw [← hsaved, hs]) hrun
     · exact finalCheck_noPanic _ _ _ _
 
 /-- **Script execution never panics**: for every hash/signature oracle, flag set, optional transaction context,
@@ -224,9 +226,9 @@ theorem execute_noPanic (H : Crypto) (flags : Nat) (ctx : Option Ctx) (unlock lo
     simp only []
     rw [← hctx] at hpu hpl ⊢
     split
-    · exact runLock_noPanic p.env p [] {} [] hpl rfl rfl hb q
+    · exact runLock_noPanic p.env p [] {} [] hpl ⟨rfl, rfl, rfl⟩ rfl hb q
     · next hne =>
-      have spec := runScript_spec p.env 0 p.unlock {} [] hpu rfl
+      have spec := runScript_spec p.env 0 p.unlock {} [] hpu ⟨rfl, rfl, rfl⟩
       split
       · next v tr1 hrun =>
         intro hv
